@@ -275,8 +275,7 @@ package uePolicyContainer
 
 // Lengths are computed from the content on every encoding (whatever the length field held before).
 //@ func (u *UEPolicyPart) MarshalBinary() (r, err)
-//@   requires len(u.UEPolicyPartContents) <= 65534
-//@   ensures err == nil && len(r) == 3 + len(u.UEPolicyPartContents) && int(u.Len) == 1 + len(u.UEPolicyPartContents)
+//@   ensures err == nil && len(r) == 3 + len(u.UEPolicyPartContents) && u.Len == uint16(1 + len(u.UEPolicyPartContents))
 //@   ensures r[0] == uint8(u.Len >> 8) && r[1] == uint8(u.Len) && r[2] == u.UEPolicyPartType.Octet
 //@   ensures forall(k, 0, len(u.UEPolicyPartContents), r[3+k] == u.UEPolicyPartContents[k])
 //@ end
